@@ -632,6 +632,11 @@ pub fn gen_run(verif_seed: u64, index: u64) -> IoRun {
         } else {
             Pre::Absent
         };
+        if kind == Kind::Png && !sw.fault_free && rng.chance(1, 25) {
+            // the raster path cannot parse a document with a quote in the image reference and
+            // panics: an earlier caller that died inside the renderer
+            setters.push(RSetter::Image(ImageSpec::Raw("logo \"<draft>.png".to_string())));
+        }
         // very many shape layers multiply the document: keep those for small symbols
         let n_shapes = setters.iter().filter(|s| matches!(s, RSetter::Shape(_) | RSetter::ShapeColor(_, _))).count();
         let mut qr = qr;
@@ -1139,7 +1144,21 @@ pub fn exec_op(dir: &Path, idx: usize, op: &IoOp, stats: &mut Stats, pre: Option
                 computed = p;
                 &computed
             }
-            Err(why) => return skip(rep, why, stats),
+            Err(why) => {
+                // Not a C19 case - but if it is the raster path that panics on these options,
+                // the call is made all the same (its outcome does not matter; what a panicking
+                // call leaves behind on this thread and in this process for later calls does).
+                if why == "render_panic" && op.kind == Kind::Png && !op.target.kernel_fault() {
+                    if let Ok(Ok(q)) = catch_unwind(|| op.qr.fresh_builder().build()) {
+                        let p = resolve_path(dir, &op.target);
+                        let r = catch_unwind(AssertUnwindSafe(|| img_builder_from(&op.setters).to_file(&q, &p)));
+                        if r.is_err() {
+                            stats.bump("fired:caller_panicked_in_renderer(real)", 1);
+                        }
+                    }
+                }
+                return skip(rep, why, stats);
+            }
         },
     };
     let qr: &QRCode = &prep.qr;
